@@ -11,7 +11,10 @@ package main
 
 import (
 	"go/types"
+	"math/big"
+	"os"
 	"strings"
+	"sync"
 
 	"golang.org/x/tools/go/ssa"
 )
@@ -171,4 +174,262 @@ func wideArrayEq(x, y *ArrayV) *Term {
 		return nil
 	}
 	return Eq(cx, cy)
+}
+
+// Refuted-branch memo (used by feasibleM): when pc-slice ∧ c was answered
+// unsat, remember c together with the IDs of the slice. A later feasibility
+// question for the same (hash-consed) c is answered "infeasible" without a
+// solver call provided every remembered assertion is still part of the path
+// condition (the path condition then implies the refuted conjunction; axiom
+// instantiation only adds assumptions). Loops that re-test the same bits of an
+// index (shachain countTrailingZeros) otherwise cost one query per iteration.
+var refutedMemo = struct {
+	ex   *Exec
+	deps map[int][]int
+}{}
+
+func (ex *Exec) knownInfeasible(c *Term) bool {
+	if refutedMemo.ex != ex || refutedMemo.deps == nil {
+		return false
+	}
+	deps, ok := refutedMemo.deps[c.ID]
+	if !ok {
+		return false
+	}
+	have := make(map[int]bool, len(ex.pc))
+	for _, t := range ex.pc {
+		have[t.ID] = true
+	}
+	for _, d := range deps {
+		if !have[d] {
+			return false
+		}
+	}
+	return true
+}
+
+func (ex *Exec) noteInfeasible(c *Term, sl []*Term) {
+	if refutedMemo.ex != ex || refutedMemo.deps == nil {
+		refutedMemo.ex = ex
+		refutedMemo.deps = map[int][]int{}
+	}
+	ids := make([]int, len(sl))
+	for i, t := range sl {
+		ids[i] = t.ID
+	}
+	refutedMemo.deps[c.ID] = ids
+}
+
+// ---------------------------------------------------------------------------
+// Known-bits constant folding (hooked into bin() in term.go).
+//
+// kb(t) computes, bottom-up and memoised by term ID, which bits of a
+// bit-vector term have the same value for every assignment (LLVM
+// computeKnownBits style, sound under-approximation: a bit is reported only
+// when the rules below prove it). bin() asks kbFold before building a new
+// term: if every bit of the result is known, the constant is returned
+// instead. This turns bit tests such as ((h<<8 | 0x80) >> 3) & 1 into
+// constants, so that loops testing the low bits of a partly concrete index
+// (shachain.countTrailingZeros, deriveBitTransformations) need no solver
+// call per iteration. VERIF_NO_KB=1 switches it off.
+// ---------------------------------------------------------------------------
+
+type kbits struct{ z, o *big.Int } // masks of bits known 0 / known 1
+
+var (
+	kbMemo    = map[int]kbits{}
+	kbMu      sync.Mutex
+	kbOff     = os.Getenv("VERIF_NO_KB") != ""
+	kbNothing = kbits{new(big.Int), new(big.Int)}
+)
+
+func kbConst(v *big.Int, w int) kbits {
+	return kbits{z: new(big.Int).AndNot(mask(w), v), o: new(big.Int).Set(v)}
+}
+
+func kb(t *Term) kbits {
+	if t.Sort.K != KBV {
+		return kbNothing
+	}
+	if t.Op == OpConst {
+		return kbConst(t.Val, t.Sort.W)
+	}
+	kbMu.Lock()
+	r, ok := kbMemo[t.ID]
+	kbMu.Unlock()
+	if ok {
+		return r
+	}
+	r = kbCompute(t)
+	kbMu.Lock()
+	kbMemo[t.ID] = r
+	kbMu.Unlock()
+	return r
+}
+
+func kbCompute(t *Term) kbits {
+	w := t.Sort.W
+	switch t.Op {
+	case OpBAnd, OpBOr, OpBXor, OpShl, OpLShr, OpAdd, OpSub:
+		return kbOp(t.Op, t.Args[0], t.Args[1])
+	case OpBNot:
+		a := kb(t.Args[0])
+		return kbits{z: a.o, o: a.z}
+	case OpZExt:
+		a := kb(t.Args[0])
+		iw := t.Args[0].Sort.W
+		hi := new(big.Int).AndNot(mask(w), mask(iw))
+		return kbits{z: new(big.Int).Or(a.z, hi), o: a.o}
+	case OpExtract:
+		a := kb(t.Args[0])
+		m := mask(w)
+		z := new(big.Int).Rsh(a.z, uint(t.I1))
+		o := new(big.Int).Rsh(a.o, uint(t.I1))
+		return kbits{z: z.And(z, m), o: o.And(o, m)}
+	case OpConcat:
+		a, b := kb(t.Args[0]), kb(t.Args[1])
+		lw := uint(t.Args[1].Sort.W)
+		z := new(big.Int).Lsh(a.z, lw)
+		o := new(big.Int).Lsh(a.o, lw)
+		return kbits{z: z.Or(z, b.z), o: o.Or(o, b.o)}
+	case OpIte:
+		a, b := kb(t.Args[1]), kb(t.Args[2])
+		return kbits{z: new(big.Int).And(a.z, b.z), o: new(big.Int).And(a.o, b.o)}
+	}
+	return kbNothing
+}
+
+// kbOp: known bits of (op a b) for two operands of the same width.
+func kbOp(op Op, ta, tb *Term) kbits {
+	w := ta.Sort.W
+	m := mask(w)
+	switch op {
+	case OpBAnd:
+		a, b := kb(ta), kb(tb)
+		return kbits{z: new(big.Int).Or(a.z, b.z), o: new(big.Int).And(a.o, b.o)}
+	case OpBOr:
+		a, b := kb(ta), kb(tb)
+		return kbits{z: new(big.Int).And(a.z, b.z), o: new(big.Int).Or(a.o, b.o)}
+	case OpBXor:
+		a, b := kb(ta), kb(tb)
+		ka := new(big.Int).Or(a.z, a.o)
+		kbb := new(big.Int).Or(b.z, b.o)
+		k := ka.And(ka, kbb)
+		v := new(big.Int).Xor(a.o, b.o)
+		v.And(v, k)
+		return kbits{z: new(big.Int).AndNot(k, v), o: v}
+	case OpShl, OpLShr:
+		if !tb.IsConst() {
+			return kbNothing
+		}
+		if tb.Val.Cmp(big.NewInt(int64(w))) >= 0 {
+			return kbConst(new(big.Int), w)
+		}
+		c := uint(tb.Val.Uint64())
+		a := kb(ta)
+		if op == OpShl {
+			z := new(big.Int).Lsh(a.z, c)
+			z.Or(z, mask(int(c)))
+			z.And(z, m)
+			o := new(big.Int).Lsh(a.o, c)
+			o.And(o, m)
+			return kbits{z: z, o: o}
+		}
+		z := new(big.Int).Rsh(a.z, c)
+		z.Or(z, new(big.Int).AndNot(m, new(big.Int).Rsh(m, c)))
+		return kbits{z: z, o: new(big.Int).Rsh(a.o, c)}
+	case OpAdd, OpSub:
+		a, b := kb(ta), kb(tb)
+		carry := 0 // 0 / 1 known, -1 unknown
+		if op == OpSub {
+			// a - b = a + ^b + 1
+			b = kbits{z: b.o, o: b.z}
+			carry = 1
+		}
+		if a.z.Sign() == 0 && a.o.Sign() == 0 || b.z.Sign() == 0 && b.o.Sign() == 0 {
+			return kbNothing
+		}
+		z, o := new(big.Int), new(big.Int)
+		for i := 0; i < w; i++ {
+			ai, bi := -1, -1
+			if a.z.Bit(i) == 1 {
+				ai = 0
+			} else if a.o.Bit(i) == 1 {
+				ai = 1
+			}
+			if b.z.Bit(i) == 1 {
+				bi = 0
+			} else if b.o.Bit(i) == 1 {
+				bi = 1
+			}
+			if ai >= 0 && bi >= 0 && carry >= 0 {
+				s := ai + bi + carry
+				if s&1 == 1 {
+					o.SetBit(o, i, 1)
+				} else {
+					z.SetBit(z, i, 1)
+				}
+				carry = s >> 1
+				continue
+			}
+			// sum bit unknown; carry out is known only if two of the three
+			// inputs are known and equal
+			n0, n1 := 0, 0
+			for _, x := range [3]int{ai, bi, carry} {
+				if x == 0 {
+					n0++
+				} else if x == 1 {
+					n1++
+				}
+			}
+			switch {
+			case n0 >= 2:
+				carry = 0
+			case n1 >= 2:
+				carry = 1
+			default:
+				carry = -1
+			}
+		}
+		return kbits{z: z, o: o}
+	}
+	return kbNothing
+}
+
+// kbFold returns the constant value of (op a b) if all its bits are known.
+func kbFold(op Op, a, b *Term) *Term {
+	if kbOff {
+		return nil
+	}
+	switch op {
+	case OpBAnd, OpBOr, OpBXor, OpShl, OpLShr, OpAdd, OpSub:
+	default:
+		return nil
+	}
+	r := kbOp(op, a, b)
+	w := a.Sort.W
+	if new(big.Int).Or(r.z, r.o).Cmp(mask(w)) != 0 {
+		return nil
+	}
+	return BVBig(r.o, w)
+}
+
+// kbDistinct: the two bit-vector terms can never be equal because some bit is
+// known to be 0 in one of them and known to be 1 in the other.
+func kbDistinct(a, b *Term) bool {
+	if kbOff || a.Sort.W > 64 {
+		return false
+	}
+	ka := kb(a)
+	if ka.z.Sign() == 0 && ka.o.Sign() == 0 {
+		return false
+	}
+	k2 := kb(b)
+	if k2.z.Sign() == 0 && k2.o.Sign() == 0 {
+		return false
+	}
+	if new(big.Int).And(ka.z, k2.o).Sign() != 0 {
+		return true
+	}
+	return new(big.Int).And(ka.o, k2.z).Sign() != 0
 }
